@@ -32,7 +32,9 @@ def build_harness():
     lock_dst = os.path.join(HARNESS_DIR, "Cargo.lock")
     if not os.path.exists(lock_dst):
         shutil.copy(lock_src, lock_dst)
-    env = dict(os.environ, CARGO_NET_OFFLINE="true")
+    env = dict(os.environ, CARGO_NET_OFFLINE="true",
+               CARGO_TARGET_DIR=os.path.join(HARNESS_DIR, "target"))
+    env.pop("RUSTFLAGS", None)   # the harness's own .cargo/config.toml decides
     t0 = time.time()
     r = subprocess.run(["cargo", "build", "--offline", "--quiet"], cwd=HARNESS_DIR, env=env,
                        stdout=subprocess.PIPE, stderr=subprocess.STDOUT, text=True)
